@@ -393,3 +393,32 @@ func roleOf(fc *FuncCtx, e ast.Expr) string {
 	}
 	return kind + ":" + tstr()
 }
+
+// ResolveUp is Resolve that also follows a captured variable of a function literal to its single
+// definition in an enclosing function (when neither the literal nor any other place assigns it).
+func (fc *FuncCtx) ResolveUp(e ast.Expr) ast.Expr {
+	e = fc.Resolve(e)
+	for up := fc.Parent; up != nil; up = up.Parent {
+		id, ok := ast.Unparen(e).(*ast.Ident)
+		if !ok {
+			return e
+		}
+		obj := objOf(fc.Info(), id)
+		if obj == nil || len(fc.Defs(obj)) > 0 {
+			return e
+		}
+		// not assigned inside any literal of the enclosing function either
+		assignedInLit := false
+		for _, lit := range up.Lits() {
+			lc := up.Prog.LitCtx(up, lit)
+			if len(lc.Defs(obj)) > 0 {
+				assignedInLit = true
+			}
+		}
+		if assignedInLit {
+			return e
+		}
+		e = up.Resolve(e)
+	}
+	return e
+}
